@@ -35,6 +35,12 @@ func storageTrapAll(inflowMass, storageInflow, storageOutflow, storageVolume dat
 
 	trappedMass.CopyFrom(inflowMass)
 
+	if trappedMass.Len1() == 0 {
+		// no timesteps: nothing can be released; element 0 does not exist (a C-backed array would be written out of bounds)
+		storedMass = initialStoredMass
+		return
+	}
+
 	idx := []int{0}
 	trappedMass.Set(idx, trappedMass.Get(idx)+initialStoredMass)
 	storedMass = 0.0
